@@ -263,7 +263,7 @@ func checkHeadNormalizer(r *Report, rule string) {
 		if x.kind == exitFailure {
 			o := r.ob(rule, id+":refusal", fn, x.ret, "the normaliser refuses only empty input, a non-bstr major type or a mode error")
 			fs := x.facts
-			empty := fs.has(Fact{tEq(tInt(0), tLen(T("param", "0"))), true})
+			empty := fs.holdsEmpty(T("param", "0"))
 			notBstr := len(fs.matchAll([]factPat{fp("!binop<==>(2, binop<>>>(*index($0, 0), 5))")}, nil)) > 0
 			modeErr := x.errTerm.Op == "call" && strings.HasPrefix(x.errTerm.S, "invoke:cbor.") || (x.errTerm.Op == "res" && x.errTerm.Args[0].Op == "call" && strings.HasPrefix(x.errTerm.Args[0].S, "invoke:cbor."))
 			o.check(empty || notBstr || modeErr, fmt.Sprintf("empty:%v not-bstr:%v mode-error:%v", empty, notBstr, modeErr), "a well-formed bstr can be refused: failure exit returning "+x.errTerm.String()+" is not guarded by len==0 / major type != 2 / a mode error")
